@@ -5,7 +5,9 @@ PROPS["C07"] = dict(
          "CasByVersion ok/conflict, Delete, Create, advance clock} with up to 4 live waiters on 2 keys, <= 25(40) steps in-memory, <= 10 steps "
          "on Redis (batches of up to 8 scripts run concurrently, each on its own server). The hammer unit starts a waiter for the current version and writes the key (Put or CAS) at the same moment, "
          "300..2000(6000) times on 1..6 keys in parallel: after the write returned the waiter must return nil within 5 s. The squeeze unit forces a writer (Put/CAS/PutMany/Delete) between the critical sections of a starting waiter through the "
-         "storage mutex. After every step every waiter must have returned iff "
+         "storage mutex. Redis scripts also contain 'fault' steps (every Redis command fails for 180 ms): a waiter may give up with the storage's error or ride "
+         "it out, but must not report a change or an absence that is not there; in-memory scripts also write records that are already expired "
+         "(the key is then gone for every waiter). After every step every waiter must have returned iff "
          "key absent/expired (ErrNotExist) or version != argument (nil) or context done (context error), and must still be parked otherwise; "
          "the in-memory waiter table must hold exactly the parked waiters and be empty at the end. non-trivial = a waiter was cancelled "
          "while another one on the same key stayed parked, or one mutation woke >= 2 waiters; distinct = hash of (environment, script); "
